@@ -14,7 +14,7 @@
           EHandlerReturn), each with the notifications recorded for it (WN). *)
 From Hy Require Import lib.Harness lib.Lin model.C15_Stats model.C15_Sites.
 From Hy Require gen.ParamsC01.
-From Hy Require Import model.C15_FromC01.
+From Hy Require Import model.C15_FromC01 model.C15_Pending.
 From Coq Require Import ZArith String.
 Local Open Scope N_scope.
 
@@ -55,7 +55,9 @@ Definition c15_spec (secret : string) : spec :=
 Inductive wobs :=
 | WE (e : wevent) (r : wresp)      (* a server event and what was observed as its answer *)
 | WAlive (slot : nat) (b : bool)   (* did a proxy attempt on that connection succeed? *)
-| WN (e : wevent) (ns : list (id * bool)).
+| WN (e : wevent) (ns : list (id * bool))
+| WReq (slot : nat) (k : N)        (* k proxy requests of that connection went into an outbound dial that does not return *)
+| WRel (slot : nat).               (* the pending dials of that connection failed: its request goroutines returned *)
                                    (* a server event that was enabled, and the LogOnlineState calls the
                                       logger boundary recorded for that connection at that point (auth
                                       handler steps and handleClient's continuation of a connection that
@@ -86,7 +88,32 @@ Fixpoint world_check (secret : string) (w : world) (l : list wobs) : bool :=
   | WN e ns :: t =>
       let (w', r) := wstep secret w e in
       wresp_eqb r WUnit && notes_eqb (map snd (wnote w e)) ns && world_check secret w' t
+  | WReq _ _ :: t | WRel _ :: t => world_check secret w t
   end.
+
+(* the same observations against model/C15_Pending.v (the code: handleClient does not wait): the requests went into
+   their dials on an open connection, and every later event - in particular the connection's offline notification
+   while its requests are still pending - is answered as observed *)
+Fixpoint pworld_check (secret : string) (p : pworld) (l : list wobs) : bool :=
+  match l with
+  | [] => true
+  | WE e obs :: t =>
+      let (p', r) := pstep false secret p (PW e) in
+      wresp_eqb r obs && pworld_check secret p' t
+  | WAlive slot b :: t => Bool.eqb (is_open slot (pw p)) b && pworld_check secret p t
+  | WN e ns :: t =>
+      let (p', r) := pstep false secret p (PW e) in
+      wresp_eqb r WUnit && pworld_check secret p' t
+  | WReq slot k :: t =>
+      let (p', r) := pstep false secret p (PReqBegin slot k) in
+      wresp_eqb r WUnit && pworld_check secret p' t
+  | WRel slot :: t =>
+      let (p', r) := pstep false secret p (PReqEnd slot (pend_at slot (pend p))) in
+      wresp_eqb r WUnit && pworld_check secret p' t
+  end.
+
+Definition has_req (l : list wobs) : bool :=
+  existsb (fun o => match o with WReq _ _ => true | _ => false end) l.
 
 (* ---------- the same end-to-end runs against the COMPOSITION of C01's server model with this object ----------
    (model/C15_FromC01.v; A = model/C01_ServerAuth.v, S = model/C15_Stats.v.)  The recorded server events are read as
@@ -133,7 +160,7 @@ Fixpoint c01_world_check (st : A.state) (tr : list A.ev) (ids : list id) (l : li
   | WE _ WNone :: t => c01_world_check st tr ids t
   | WE e _ :: t => go e t
   | WN e _ :: t => go e t
-  | WAlive _ _ :: t => c01_world_check st tr ids t
+  | WAlive _ _ :: t | WReq _ _ :: t | WRel _ :: t => c01_world_check st tr ids t
   end.
 
 Inductive case :=
@@ -153,7 +180,8 @@ Definition check (c : case) : bool :=
   match c with
   | CSeq secret l => seq_check secret init_state l
   | CLin secret h => lin_check (c15_spec secret) h
-  | CWorld secret l => world_check secret init_world l && c01_world_check A.init [] [] l
+  | CWorld secret l => world_check secret init_world l && c01_world_check A.init [] [] l &&
+                       (if has_req l then pworld_check secret init_pworld l else true)
   end.
 
 Definition mismatches (l : list case) : list nat := mism_from check 0 l.
